@@ -4,7 +4,9 @@
    `val n q` = n is a Python number (no exception) of exact value q, whatever its int/float kind. *)
 From Coq Require Import String List Morphisms.
 Require Import SC3.proofs.NumTac SC3.gen.Gen_builtins SC3.proofs.C12_num SC3.model.TaskQ SC3.model.Event.
-Require Import SC3.proofs.C14_keys SC3.proofs.C14_play.
+Require Import SC3.proofs.C09_order SC3.proofs.C14_keys SC3.proofs.C14_play SC3.proofs.C14_stream SC3.proofs.C14_pdur.
+Require Import SC3.proofs.C14_ppar SC3.proofs.C14_merge SC3.proofs.C14_mergethm SC3.proofs.C14_parfinal.
+From Coq Require Import Sorting.
 Import ListNotations.
 Open Scope Q_scope.
 
@@ -15,11 +17,7 @@ Theorem explicit_key_precedence : forall K e k v, get k e = Some v ->
   (k = "degree"%string -> c_degree K e = vnum v) /\
   (k = "midinote"%string -> c_midinote K e = vnum v) /\
   (k = "freq"%string -> c_freq K e = vnum v).
-Proof.
-  intros K e k v H. split; [exact (explicit_l K e k v H)|]. split; [exact (plain_explicit K e k v H)|].
-  destruct (inner_explicit K e v) as [A [B C]].
-  repeat split; intros E; subst k; auto.
-Qed.
+Proof. exact explicit_key_precedence_l. Qed.
 
 (* degree (+ mtranspose) -> scale step (octave part: floor; index: int() as in the code) -> note
    -> (+ gtranspose + root) / steps-per-octave + octave - 5, times 12 log2(octave ratio), + 60 = midinote
@@ -42,14 +40,7 @@ Theorem pitch_chain : forall K e s gt root oct ct har det,
   (forall vm m, get "midinote" e = Some vm -> get "freq" e = None -> val (vnum vm) m ->
      val (r_freq K e) (k_midicps K (m + ct)) /\ val (detuned_freq K e) (k_midicps K (m + ct) * har + det)) /\
   (forall vf f, get "freq" e = Some vf -> val (vnum vf) f -> val (detuned_freq K e) (f * har + det)).
-Proof.
-  intros K e s gt root oct ct har det HP Hs Hspo Hgt Hroot Hoct Hct Hhar Hdet.
-  split; [|split; [|split]].
-  - intros. eapply chain_from_degree; eauto.
-  - intros. eapply chain_from_note; eauto.
-  - intros. eapply chain_from_midinote; eauto.
-  - intros. eapply chain_from_freq; eauto.
-Qed.
+Proof. exact pitch_chain_l. Qed.
 
 (* db -> amp through dbamp; otherwise velocity / 127; otherwise the default *)
 Theorem amp_chain : forall K e,
@@ -86,13 +77,7 @@ Theorem note_play_commands : forall K lib lat now node e d,
        has a (put "has_gate" (VBool (d_has_gate d)) (put "freq" (VNum (detuned_freq K e)) e)) = true /\
        x = vnum (ev_call K (put "has_gate" (VBool (d_has_gate d)) (put "freq" (VNum (detuned_freq K e)) e)) a)) /\
   (forall t, 0 <= t -> stamp now t == now + t).
-Proof.
-  intros K lib lat now node e d Hlib Hsg ps e2 snew. split; [exact (note_play_l K lib lat now node e d Hlib Hsg)|].
-  split; [|intros t Ht; exact (stamp_nonneg now t Ht)].
-  intros a x. split.
-  - apply sent_params_sound.
-  - intros [H1 [H2 H3]]. subst x. apply sent_params_complete; assumption.
-Qed.
+Proof. exact note_play_commands_l. Qed.
 
 (* an event with a Rest in any key is a rest; a rest pulled by a player sends nothing; the filling events of
    Pdelta and Ppar are rests *)
@@ -118,49 +103,104 @@ Theorem player_continues_after_rest : forall c K lib f depth s proto mc now e0 s
     map (LOff now) offs ++ LEv now (as_event e0) :: player c K lib f depth s' proto mc' (now + toQ n).
 Proof. exact player_continues_after_rest. Qed.
 
-(* Pdur: when the stream ends by the cut, the deltas of its events sum to dur exactly (elapsed = 0 at the start);
-   the cut is taken by the first event that ends at or after dur and by no event that ends more than the
-   tolerance before it.
-   FULL statement (pdur_total_duration): for every child stream whose deltas sum to at least dur, the deltas of
-   Pdur(dur, child) sum to dur.  PROVED: the three parts below; their composition by induction over the
-   child's run is not written out. *)
-Theorem pdur_total_duration_partial : forall c K lib, fix_pdur_int c = true ->
-  (forall fuel dep elapsed d s inev mc x dq, val elapsed x -> val d dq ->
-     Forall (fun e => ok (vnum (ev_call K e "delta"))) (fst (dur_run c K lib fuel dep elapsed d s inev mc)) ->
-     snd (dur_run c K lib fuel dep elapsed d s inev mc) = true ->
-     qsum (map (delta_q K) (fst (dur_run c K lib fuel dep elapsed d s inev mc))) == dq - x) /\
-  (forall elapsed delta d x y dq, val elapsed x -> val delta y -> val d dq -> dq <= x + y ->
-     nge (py_roundup (nadd elapsed (pfloat delta)) tolerance) d = true) /\
-  (forall elapsed delta d x y dq, val elapsed x -> val delta y -> val d dq -> x + y + toQ tolerance <= dq ->
-     nge (py_roundup (nadd elapsed (pfloat delta)) tolerance) d = false).
-Proof.
-  intros c K lib H. split; [exact (pdur_sum_l c K lib H)|]. split; [exact pdur_cut_when_reached|exact pdur_pass_when_short].
-Qed.
+(* ---- streams as event lists ------------------------------------------------------------------------------------------
+   stream_run c K lib fuel dep s inev mc = the events the stream state s yields when it is pulled with the input event
+   inev until it ends (at most fuel events); timeline K start l = the events of l with the times start + the sum of the
+   deltas of the events before; cdelta K e = the delta of e (as an EventType instance). *)
 
-(* Ppar.
-   FULL statement (ppar_preserves_child_timelines): the subsequence of Ppar's output that comes from child c,
-   with absolute times, is c's own timeline, and the output is the merge of the children ordered by absolute time,
-   ties by queueing order.  PROVED: one step of the merge -- the pulled child is re-queued at exactly
-   now + its own delta in a queue that is the stable priority queue of C09 (TaskQ.spec; tq_refines_spec,
-   pop_nondecreasing, pop_fifo_on_ties), the output delta is the distance to the head of that queue, a finished
-   child is replaced by a rest of that length -- and a computed two-voice example.  The induction over the run,
-   relating the queue contents to the children's own timelines, is not done. *)
-Theorem ppar_preserves_child_timelines_partial :
-  (forall c K lib dep q now cs inev mc t p q1 ci e0 ci' o mc' p' t',
-     spec_step OPop q = (q1, RItem p t) -> nth_error cs (Z.to_nat t) = Some ci ->
-     snext c K lib dep ci inev mc = (RYield e0 ci' o, mc') ->
-     let tnext := nadd now (pfloat (vnum (ev_call K (as_event e0) "delta"))) in
-     let q2 := fst (spec_step (OAdd (toQ tnext) t) q1) in
-     snd (spec_step (OPeek true) q2) = RItem p' t' ->
-     snext c K lib (S dep) (SPar true q now cs) inev mc =
-       (RYield (put "delta" (VNum (nsub (F p') now)) (as_event e0))
-               (SPar true q2 (F p') (set_nth (Z.to_nat t) ci' cs)) o, mc')) /\
-  (forall c K lib dep q now cs inev mc t p q1 ci o mc' p' t',
-     spec_step OPop q = (q1, RItem p t) -> nth_error cs (Z.to_nat t) = Some ci ->
-     snext c K lib dep ci inev mc = (RStop o, mc') -> snd (spec_step (OPeek true) q1) = RItem p' t' ->
-     snext c K lib (S dep) (SPar true q now cs) inev mc =
-       (RYield (silent (VNum (nsub (F p') now)) inev) (SPar true q1 (F p') (set_nth (Z.to_nat t) SDone cs)) o, mc')).
-Proof. exact (conj ppar_step_l ppar_child_end_l). Qed.
+(* a player plays the timeline of the stream's run (every delta being a number, or a Rest with the repaired player) *)
+Theorem player_plays_timeline : forall c K lib fuel depth s proto mc now,
+  Forall (numeric_delta c K) (map as_event (stream_run c K lib fuel depth s proto mc)) ->
+  evs (player c K lib fuel depth s proto mc now) = timeline K now (map as_event (stream_run c K lib fuel depth s proto mc)).
+Proof. exact player_is_timeline. Qed.
+
+(* Pdur, full strength (repaired code).  For EVERY child stream: if some event of the child ends at or after dur
+   (reaches K 0 dq child), then the deltas of the events Pdur(dur, child) yields sum to dur EXACTLY, and its events are
+   the child's events before the cut, unchanged, followed by the cut event with delta := dur - elapsed; no event before
+   the cut ends at or after dur; the cut event ends at or after dur, or within the tolerance (0.001, through bi.roundup)
+   before it.  Induction over the child's run (dur_list); the stream of Pdur IS dur_list of the child's run. *)
+Theorem pdur_total_duration : forall c K lib, fix_pdur_event c = true -> fix_pdur_int c = true ->
+  forall fuel dep d s inev mc dq,
+  let child := stream_run c K lib fuel dep s inev mc in
+  let out := stream_run c K lib fuel (S dep) (SDur (F 0) d s) inev mc in
+  val d dq -> deltas_ok K child -> reaches K 0 dq child ->
+  qsum (map (delta_q K) out) == dq /\
+  exists pre e0 post elk,
+    child = pre ++ e0 :: post /\
+    out = map as_event pre ++ [dur_clip K elk d (as_event e0)] /\
+    val elk (qsum (map (cdelta K) pre)) /\
+    (forall i, (i < List.length pre)%nat -> qsum (firstn (S i) (map (cdelta K) child)) < dq) /\
+    (dq <= qsum (map (cdelta K) pre) + cdelta K e0 \/
+     (dq - toQ tolerance < qsum (map (cdelta K) pre) + cdelta K e0 /\ qsum (map (cdelta K) pre) + cdelta K e0 < dq)).
+Proof. exact pdur_total_duration_l. Qed.
+
+(* ... and a child that ends without coming within the tolerance of dur is passed through unchanged *)
+Theorem pdur_short_child : forall c K lib, fix_pdur_event c = true -> fix_pdur_int c = true ->
+  forall fuel dep d s inev mc dq,
+  let child := stream_run c K lib fuel dep s inev mc in
+  val d dq -> deltas_ok K child ->
+  (forall j, (j < List.length child)%nat -> qsum (firstn (S j) (map (cdelta K) child)) + toQ tolerance <= dq) ->
+  stream_run c K lib fuel (S dep) (SDur (F 0) d s) inev mc = map as_event child.
+Proof. exact pdur_short_child_l. Qed.
+
+(* player o Pdur: event k of Pdur(d, child) is played at start + the sum of the CHILD's own k preceding deltas, and,
+   unless it is the last (cut) one, it is the child's k-th event *)
+Theorem player_pdur_times : forall c K lib, fix_pdur_event c = true -> fix_pdur_int c = true ->
+  forall fuel dep d s proto mc now,
+  let child := stream_run c K lib fuel dep s proto mc in
+  let out := dur_list K (F 0) d child in
+  Forall (numeric_delta c K) (map as_event out) ->
+  evs (player c K lib fuel (S dep) (SDur (F 0) d s) proto mc now) = timeline K now (map as_event out) /\
+  forall k t e, nth_error (evs (player c K lib fuel (S dep) (SDur (F 0) d s) proto mc now)) k = Some (t, e) ->
+    t == now + qsum (firstn k (map (cdelta K) child)) /\
+    ((S k < List.length out)%nat -> exists e0, nth_error child k = Some e0 /\ e = as_event e0).
+Proof. exact player_pdur_times_l. Qed.
+
+(* Ppar, full strength.  Children: any stream states cs whose streams denote fixed event lists ls (denotes: the events
+   do not depend on the Pmono node counter -- e.g. Pbind, see two_voices_denote), with numeric deltas >= 0; the input
+   event has no 'stretch' key (Event.silent multiplies the filling rests by it, as sclang does); fuel covers one step
+   per event plus one per child.  Then the stream of Ppar is the list of the po_ev of a tagged run outs in which
+   - restricted to child ch (of_child), the outputs are ch's own events (up to the delta Ppar rewrites), each at ch's own
+     time 0 + the sum of ch's own preceding deltas (ctimeline) -- all of them, in order;
+   - that time (po_time) IS the time of the output in Ppar's own output timeline (sum of the output deltas before it),
+     and is the time component of the queue key popped for it;
+   - the popped queue keys (time, sequence number) increase strictly: outputs are ordered by absolute time, and among
+     equal times by queueing order (sequence numbers are C09's insertion counter; initially the child index).
+     "Ties in child order" holds for the first events only: see tie_order_example;
+   - the output deltas sum to the largest of the children's total durations.
+   Induction over the run with an invariant on C09's sorted-list specification (sorted, insert_by_sorted,
+   insert_by_perm, sorted_head_le of proofs/C09_order.v). *)
+Theorem ppar_preserves_child_timelines : forall c K lib dep inev cs ls fuel mc,
+  (0 < dep)%nat -> get "stretch" inev = None -> lists_ok K ls -> Forall2 (denotes c K lib dep inev) cs ls ->
+  (mupto (List.length ls) ls <= fuel)%nat ->
+  let out := stream_run c K lib fuel (S dep) (SPar false spec_init (F 0) cs) inev mc in
+  exists outs,
+    out = map po_ev outs /\
+    (forall ch, (ch < List.length ls)%nat -> Forall2 own (of_child ch outs) (ctimeline K 0 (nth ch ls []))) /\
+    (forall k o, nth_error outs k = Some o ->
+       toQ (po_time o) == qsum (firstn k (map (delta_q K) out)) /\ toQ (po_time o) = fst (po_key o)) /\
+    StronglySorted key_lt outs /\
+    (ls <> [] -> is_max (qsum (map (delta_q K) out)) (map (total K) ls)).
+Proof. exact ppar_preserves_child_timelines_l. Qed.
+
+(* player o Ppar: the entries of the player's log that come from child ch (sel) are ch's events, the m-th one played at
+   start + the sum of ch's own m preceding deltas *)
+Theorem player_ppar_times : forall c K lib dep inev cs ls fuel mc now,
+  (0 < dep)%nat -> get "stretch" inev = None -> lists_ok K ls -> Forall2 (denotes c K lib dep inev) cs ls ->
+  (mupto (List.length ls) ls <= fuel)%nat ->
+  let outs := par_run K inev fuel (par_init (List.length ls)) (F 0) ls in
+  let log := evs (player c K lib fuel (S dep) (SPar false spec_init (F 0) cs) inev mc now) in
+  forall ch, (ch < List.length ls)%nat ->
+  Forall2 (played_own now) (sel ch log outs) (ctimeline K 0 (nth ch ls [])).
+Proof. exact player_ppar_times_l. Qed.
+
+(* ... every entry of that log being the corresponding output of the merge, at start + its merge time *)
+Theorem player_ppar_log : forall c K lib dep inev cs ls fuel mc now,
+  (0 < dep)%nat -> get "stretch" inev = None -> lists_ok K ls -> Forall2 (denotes c K lib dep inev) cs ls ->
+  let outs := par_run K inev fuel (par_init (List.length ls)) (F 0) ls in
+  stream_run c K lib fuel (S dep) (SPar false spec_init (F 0) cs) inev mc = map po_ev outs /\
+  Forall2 (logged now) (evs (player c K lib fuel (S dep) (SPar false spec_init (F 0) cs) inev mc now)) outs.
+Proof. exact player_ppar_log. Qed.
 
 (* ---- the defects of the code as released (each is replayed on the library by harness/props/C14.py) ------------ *)
 (* Pbind(dur = [Rest(1), 1]): nothing is ever played (the player yields a Rest object and is not re-scheduled) *)
@@ -197,14 +237,18 @@ Example chain_computes :
 Proof. exact ex_event_chain. Qed.
 
 Example pitch_chain_hypotheses_met :
-  Proper (Qeq ==> Qeq) (k_midicps K0) /\ pscale K0 ex_event = major /\ ~ sc_spo major == 0 /\
-  val (pnum K0 ex_event "octave") 4 /\ val (pnum K0 ex_event "gtranspose") 0 /\
-  get "degree" ex_event = Some (VNum (I 9)) /\ get "note" ex_event = None /\
-  ok (nadd (vnum (VNum (I 9))) (pnum K0 ex_event "mtranspose")).
-Proof.
-  split; [intros x y H; exact H|]. split; [reflexivity|]. split; [vm_compute; discriminate|].
-  repeat split; reflexivity.
-Qed.
+  Proper (Qeq ==> Qeq) (k_midicps K0k) /\ pscale K0k ex_event_k = major /\ ~ sc_spo major == 0 /\
+  val (pnum K0k ex_event_k "octave") 4 /\ val (pnum K0k ex_event_k "gtranspose") 0 /\
+  get "degree" ex_event_k = Some (VNum (I 9)) /\ get "note" ex_event_k = None /\
+  ok (nadd (vnum (VNum (I 9))) (pnum K0k ex_event_k "mtranspose")).
+Proof. exact pitch_chain_hypotheses_met_l. Qed.
+
+(* an endless Pbind of one-beat events under Pdur(3/2): the hypotheses hold, the deltas are 1 and 1/2 *)
+Example pdur_hypotheses_met :
+  let child := stream_run patched K1 [] 5 3 endless [] 0 in
+  val (F (3 # 2)) (3 # 2) /\ deltas_ok K1 child /\ reaches K1 0 (3 # 2) child /\
+  map (fun e => Qred (delta_q K1 e)) (stream_run patched K1 [] 5 4 (SDur (F 0) (F (3 # 2)) endless) [] 0) = [1; 1 # 2].
+Proof. exact pdur_hypotheses_met_l. Qed.
 
 Example ppar_two_voices :
   map (fun b => (Qred (fst b), voice b))
@@ -213,7 +257,20 @@ Example ppar_two_voices :
   = [(0, 0%Z); (0, 1%Z); (1 # 2, 1%Z); (1, 0%Z); (1, 1%Z); (2, 0%Z)].
 Proof. exact ppar_example_l. Qed.
 
+(* the hypotheses of the Ppar theorems are met by two Pbind voices; ties go to the entry queued first *)
+Example ppar_hypotheses_met :
+  Forall2 (denotes patched K0 the_lib 3 []) [SBind voiceA; SBind voiceB] two_lists /\ lists_ok K0 two_lists /\
+  (mupto (List.length two_lists) two_lists <= 9)%nat.
+Proof. exact ppar_hypotheses_met_l. Qed.
+
+Example tie_order :
+  map (fun o => (Qred (toQ (po_time o)), po_src o)) (par_run K0 [] 9 (par_init 2) (F 0) two_lists)
+  = [(0, Some 0%nat); (0, Some 1%nat); (1 # 2, Some 0%nat); (1, Some 1%nat); (1, Some 0%nat); (2, None)].
+Proof. exact tie_order_example. Qed.
+
 Print Assumptions pitch_chain.
 Print Assumptions note_play_commands.
 Print Assumptions player_times.
-Print Assumptions pdur_total_duration_partial.
+Print Assumptions pdur_total_duration.
+Print Assumptions ppar_preserves_child_timelines.
+Print Assumptions player_ppar_times.
